@@ -981,13 +981,6 @@ impl Reader {
             None => SequenceNumberSet::new_empty(writer_proxy.all_ackable_before()),
           };
 
-          let response_ack_nack = AckNack {
-            reader_id,
-            writer_id: heartbeat.writer_id,
-            reader_sn_state,
-            count: writer_proxy.next_ack_nack_sequence_number(),
-          };
-
           // Sanity check
           //
           // Wrong. This sanity check is invalid. The condition
@@ -1037,6 +1030,15 @@ impl Reader {
               // that this SN is really partially (and not fully) received.
             }
           }
+
+          // The NACKFRAGs go out before the ACKNACK and share its counter, so the ACKNACK
+          // takes its count after them: counts must grow in the order the submessages are sent.
+          let response_ack_nack = AckNack {
+            reader_id,
+            writer_id: heartbeat.writer_id,
+            reader_sn_state,
+            count: writer_proxy.next_ack_nack_sequence_number(),
+          };
 
           if !nackfrags.is_empty() {
             this.send_nackfrags_to(
@@ -1444,6 +1446,18 @@ impl Reader {
 impl Reader {
   pub(crate) fn verif_matched_writers(&self) -> Vec<GUID> {
     self.matched_writers.keys().copied().collect()
+  }
+}
+
+// Verification hook: read-only views of a writer proxy and of the fragment assembler of a writer.
+#[cfg(rustdds_verif)]
+impl Reader {
+  pub(crate) fn verif_writer_proxy_view(&self, writer: GUID) -> Option<(i64, Vec<i64>, i32, i32)> {
+    self.matched_writers.get(&writer).map(|wp| wp.verif_view())
+  }
+
+  pub(crate) fn verif_missing_frags(&self, writer: GUID, seq: SequenceNumber) -> Vec<u32> {
+    self.missing_frags_for(writer, seq).map(u32::from).collect()
   }
 }
 
